@@ -1,9 +1,10 @@
 From Coq Require Import Extraction ExtrOcamlBasic ZArith.
-From Texel Require Import gen.LeafPrelude gen.TTGen TT.Entry TT.Table TT.TBRegion TT.Atomic.
+From Texel Require Import gen.LeafPrelude gen.TTGen TT.Entry TT.Table TT.TBRegion TT.Atomic TT.Alloc.
 Extraction Language OCaml.
 Extraction "tt_model.ml"
   new_tt reSize clear setWhiteContempt nextGeneration insert probe setBusy tbOn tbOff getIndex
   getByte putByte tbStore tbLoad tb_idx0 getType
+  reSizeA setupTT setupFuel fresh round_size
   prep allowed_prep close_log
   SearchConst_isWinScore SearchConst_isLoseScore Move_getCompressedMove Move_setFromCompressed Move_isEmpty
   TTEntry_getBits TTEntry_setBits TTEntry_getKey TTEntry_setKey TTEntry_getData TTEntry_store TTEntry_load
